@@ -144,8 +144,8 @@ def _session(n, shapes, cbs, ts, x, y, d, cd='50'):
     return ''
 
 
-_S2 = [{'s1': a, 's2': b} for a in range(rc.NSHAPES) for b in range(rc.NSHAPES)]
-_S3 = [{'s1': a, 's2': b, 's3': c} for a in range(rc.NSHAPES) for b in range(rc.NSHAPES) for c in range(rc.NSHAPES)]
+_S2 = [{'s1': a, 's2': b} for a in rc.SHAPES for b in rc.SHAPES]
+_S3 = [{'s1': a, 's2': b, 's3': c} for a in rc.SHAPES for b in rc.SHAPES for c in rc.SHAPES]
 X, Y, D = 'xx', 'y z', '.5'      # concrete fragments for the schedule conditions (D is dot-stuffed on the wire)
 
 
@@ -165,7 +165,7 @@ def c01_session3(cb1: bool, cb2: bool, cb3: bool, t1: int, t2: int, s1: int, s2:
 
 
 _DEPTH = [{'s1': a, 's2': b, 's3': c, 's4': e} for (a, b, c, e) in
-          [(1, 3, 2, 0), (0, 0, 0, 0), (5, 2, 4, 1), (7, 1, 6, 3), (2, 7, 0, 5), (4, 6, 3, 2)]]
+          [(1, 3, 2, 0), (0, 0, 0, 0), (5, 2, 4, 1), (7, 1, 6, 3), (2, 7, 0, 5), (4, 6, 3, 2), (10, 1, 10, 0)]]
 
 
 @cond(quick=dict(parts=_DEPTH, budget=100))
@@ -188,10 +188,10 @@ def c01_codes(cd: str, x: str, cb: bool, sh: int) -> str:
 
 def _text_parts(maxd):
     out = []
-    for sh in range(rc.NSHAPES):
-        uses_x = sh in (1, 2, 3, 4, 6, 7)
+    for sh in rc.SHAPES:
+        uses_x = sh in (1, 2, 3, 4, 6, 7, 10)
         uses_y = sh in (4, 7)
-        uses_d = sh in (5, 6)
+        uses_d = sh in (5, 6, 10)
         for lx in (((1, 2, 3) if sh == 1 else (1, 2)) if uses_x else (1,)):
             for ly in ((1, 2) if uses_y else (1,)):
                 for ld in (range(maxd + 1) if uses_d else (0,)):
@@ -245,21 +245,21 @@ def _segmented(sh, cb, cuts):
     return ''
 
 
-@cond(quick=dict(parts=[{'sh': s} for s in range(rc.NSHAPES)], budget=120))
+@cond(quick=dict(parts=[{'sh': s} for s in rc.SHAPES], budget=200))
 def c01_segment2(c1: int, c2: int, cb: bool, sh: int) -> str:
     """the reply's byte stream cut at two offsets, delivered through the real dataReceived"""
     assume(0 <= c1 <= c2)
     return _segmented(sh, cb, [c1, c2])
 
 
-@cond(thorough=dict(parts=[{'sh': s} for s in range(rc.NSHAPES)], budget=900))
+@cond(thorough=dict(parts=[{'sh': s} for s in rc.SHAPES], budget=900))
 def c01_segment3(c1: int, c2: int, c3: int, cb: bool, sh: int) -> str:
     """three cut points"""
     assume(0 <= c1 <= c2 <= c3)
     return _segmented(sh, cb, [c1, c2, c3])
 
 
-@cond(quick=dict(parts=[{'sh': s} for s in range(rc.NSHAPES)], budget=120))
+@cond(quick=dict(parts=[{'sh': s} for s in rc.SHAPES], budget=120))
 def c01_bytewise(cb: bool, sh: int) -> str:
     """every byte delivered separately"""
     wire = rc.render(sh, X, Y, D)[0]
